@@ -1,5 +1,6 @@
 """C03 - the mass calculator and the elemental-composition calculator always agree."""
 import json
+import os
 
 from .. import core, annot, translate_tables
 from . import c02_common as cm
@@ -152,6 +153,10 @@ def run(chk):
     rng = chk.rng
     tier = chk.tier
     translate_tables.translate(chk)
+    # the vocabulary tables of the exhaustive clause (unimod_mono_consistent, ...) are regenerated from the CURRENT loader
+    # (translator of the C10 work package, read-only use)
+    from .. import translate_vocab as TV
+    TV.translate_into(chk)
     chk.lean_build(['PeptVerif.Props.C03'], DRV)
     chk.trusted += [
         'modelled: comp_mass, comp, _pop_delta_mass_mods, _sequence_comp, mod_comp (multiplier), condense_static_mods, '
@@ -517,6 +522,50 @@ def run(chk):
                nontrivial_fn=lambda c: cm.has_mods(c[0]) or bool(c[1].get('charge')), key_fn=lambda c: json.dumps(c02h.obj_of(*c), sort_keys=True),
                max_report=10 ** 6)
     c02h._attach_cases(chk, 'mass_eq_chem_mass_of_comp_plus_delta', ocases, identity, classify)
+
+    # ------------------------------------------------------------------ every Unimod row, by id and by name (exhaustive; witness
+    # producer for unimod_mono_consistent / unimod_avg_*): tabulated mass vs mass of the tabulated composition, and mass() vs
+    # comp_mass() of a peptide carrying it.  PSI-MOD: the rows outside psimodMonoExcluded (sampled in quick).
+    from peptacular.mass_calc import mod_mass as _mm2
+    AVG_EXCLUDED = {'291', '391', '415', '424', '444', '954'}
+
+    def o_row(c):
+        pre, e, by = c
+        v = f'{pre}:{e.id}' if by == 'id' else (f'U:{e.name}' if pre == 'UNIMOD' else f'M:{e.name}')
+        out = []
+        for mono in (True, False):
+            try:
+                m = _mm2(v, mono)
+                comp = chem_calc.mod_comp(v)
+                x = chem_mass(comp, monoisotopic=mono)
+            except Exception as ex:  # noqa
+                return f'{v}: {type(ex).__name__}: {ex}'
+            chn = all(k in ('C', 'H', 'N', 'O', 'P', 'S') or k[0].isdigit() or k in 'DT' for k in comp)
+            tol = 1e-4 if mono else 1e-3 + 5e-6 * abs(m)
+            if not mono and (not chn or e.id in AVG_EXCLUDED):
+                continue
+            if abs(m - x) > tol:
+                out.append(f'{v} ({"mono" if mono else "avg"}): tabulated mass {m!r}, mass of its composition {comp} = {x!r}')
+                continue
+            s2 = 'PEPTIDE[%s]' % v
+            mm = pt.mass(s2, monoisotopic=mono)
+            cc, dd = pt.comp_mass(s2)
+            if abs(mm - (chem_mass(cc, monoisotopic=mono) + dd)) > tol:
+                out.append(f'{s2} ({"mono" if mono else "avg"}): mass {mm!r} vs chem_mass(comp)+delta {chem_mass(cc, monoisotopic=mono) + dd!r}')
+        return '; '.join(out) if out else None
+
+    import re as _re
+    uall = cm.unimod_entries()
+    rows = [('UNIMOD', e, 'id') for e in uall]
+    rows += [('UNIMOD', e, 'name') for e in uall if _re.fullmatch(r'[A-Za-z][A-Za-z0-9_\-+()>. ]*', e.name)]
+    excl = set(json.loads(open(os.path.join(core.VERIF, 'corpus', 'C03', 'psimod_mono_excluded.json')).read())) \
+        if os.path.exists(os.path.join(core.VERIF, 'corpus', 'C03', 'psimod_mono_excluded.json')) else set()
+    pall = [e for e in cm.psimod_entries() if e.mono_mass is not None and e.composition and e.id not in excl]
+    chk.oracle('unimod_rows_exhaustive', rows, o_row, key_fn=lambda c: f'{c[0]}:{c[1].id}:{c[2]}', max_report=8)
+    for f in chk.failures:
+        if f['oracle'] == 'unimod_rows_exhaustive' and not isinstance(f['case'], dict):
+            f['case'] = {'value': f['case'][:200]}
+            f['function'] = 'peptacular.mod_mass / mod_comp / mass / comp_mass'
 
     # the +1 ion tables, entry by entry (witness producer for ion_tables_agree)
     from peptacular import constants
